@@ -271,7 +271,10 @@ def parse_value(ty, s, i=0):
     if m: return Val(ty, local_name(m.group(0))), m.end()
     m = re.compile(r'@"[^"]*"|@[-A-Za-z0-9_.$]+').match(s, i)
     if m:
-        return Val(ty, '((%s)&%s)' % (ctype(ty), global_name(m.group(0)))), m.end()
+        cexpr = '((%s)&%s)' % (ctype(ty), global_name(m.group(0)))
+        g = GLOBALS.get(m.group(0))
+        if g and isinstance(g[0], (TStruct, TArr)) and not g[2]: PTRINFO[cexpr] = (cexpr, g[0], 0)
+        return Val(ty, cexpr), m.end()
     m = re.compile(r'-?\d+').match(s, i)
     if m and isinstance(ty, TInt):
         v = int(m.group(0)) & ((1 << ty.n) - 1)
@@ -289,7 +292,10 @@ def parse_value(ty, s, i=0):
     if m:
         j = match_paren(s, m.end()-1)
         inner = s[m.end():j]
-        return Val(ty, '((%s)%s)' % (ctype(ty), gep_expr(inner)[0])), j+1
+        ge, gt, info = gep_expr(inner)
+        cexpr = '((%s)%s)' % (ctype(ty), ge)
+        if info: PTRINFO[cexpr] = info
+        return Val(ty, cexpr), j+1
     m = re.compile(r'(bitcast|ptrtoint|inttoptr|trunc|zext|sext|addrspacecast)\s*\(').match(s, i)
     if m:
         j = match_paren(s, m.end()-1)
@@ -298,7 +304,9 @@ def parse_value(ty, s, i=0):
         sty, p = parse_type(inner, 0)
         sv, _ = parse_value(sty, inner[:k], p)
         dty, _ = parse_type(inner[k+4:], 0)
-        return Val(ty, cast_expr(m.group(1), sv, dty)), j+1
+        ce = cast_expr(m.group(1), sv, dty)
+        if m.group(1) == 'bitcast' and sv.c in PTRINFO: PTRINFO[ce] = PTRINFO[sv.c]
+        return Val(ty, ce), j+1
     m = re.compile(r'(add|sub|and|or|xor|mul|shl|lshr)\s*(nuw\s+|nsw\s+)*\(').match(s, i)
     if m:
         j = match_paren(s, m.end()-1)
@@ -352,7 +360,8 @@ def gep_expr(inner):
     sty, _ = parse_type(parts[0])
     base, _ = parse_typed_value(parts[1])
     idxs = [parse_typed_value(p)[0] for p in parts[2:]]
-    return gep_c(sty, base, idxs)
+    e, t = gep_c(sty, base, idxs)
+    return e, t, gep_info(sty, base, idxs)
 
 def idx_signed(v):
     # index as signed C expr
@@ -370,6 +379,43 @@ def elem_ptr_type(t):
         while isinstance(e, TArr): dims += '[%d]' % e.n; e = e.el
         return '%s(*)%s' % (ctype(e), dims), True
     return ctype(t) + '*', False
+
+PTRINFO = {}   # C expr string -> (root C expr, root LLVM type, constant byte offset): statically known typed origin of a pointer
+
+def const_idx(v):
+    m = re.fullmatch(r'\(\(uint\d+_t\)(\d+)U(LL)?\)', v.c)
+    if not m: return None
+    n = int(m.group(1))
+    if n >= 1 << (v.ty.n-1): n -= 1 << v.ty.n
+    return n
+
+def gep_static_off(sty, idxs):
+    """constant byte offset of a GEP, or None"""
+    try:
+        k0 = const_idx(idxs[0])
+        if k0 is None: return None
+        off = k0 * (size_of(sty) if not (isinstance(sty, TStruct) and (sty.fields is None or sty.opaque)) else 0)
+        t = sty
+        for iv in idxs[1:]:
+            k = const_idx(iv)
+            if k is None: return None
+            if isinstance(t, TStruct): off += field_off(t, k); t = t.fields[k]
+            elif isinstance(t, TArr): off += k * size_of(t.el); t = t.el
+            else: return None
+        return off
+    except Exception:
+        return None
+
+def gep_info(sty, base, idxs):
+    off = gep_static_off(sty, idxs)
+    if off is None: return None
+    if base.c in PTRINFO:
+        r, rt, o0 = PTRINFO[base.c]
+        return (r, rt, o0 + off)
+    if isinstance(sty, (TStruct, TArr)) and not (isinstance(sty, TStruct) and (sty.fields is None or sty.opaque)):
+        if off < 0: return None
+        return (base.c, sty, off)
+    return None
 
 def gep_c(sty, base, idxs):
     # first index: pointer arithmetic over sty
@@ -391,6 +437,80 @@ def gep_c(sty, base, idxs):
         else:
             raise ValueError('gep into scalar')
     return '((char*)&%s)' % expr, t
+
+def leaves(t, off=0, path=''):
+    """scalar leaves of an LLVM type: (offset, size, access path, type)"""
+    if isinstance(t, TStruct):
+        if t.fields is None or t.opaque: raise ValueError('opaque')
+        for k, f in enumerate(t.fields):
+            yield from leaves(f, off + field_off(t, k), path + '.f%d' % k)
+    elif isinstance(t, TArr):
+        es = size_of(t.el)
+        for i in range(t.n):
+            yield from leaves(t.el, off + i * es, path + '[%d]' % i)
+    else:
+        yield (off, size_of(t), path, t)
+
+LEAF_CACHE = {}
+def leaves_of(t):
+    k = id(t)
+    if k not in LEAF_CACHE: LEAF_CACHE[k] = list(leaves(t))
+    return LEAF_CACHE[k]
+
+def root_lvalue(root_c, root_t):
+    pt, _ = elem_ptr_type(root_t)
+    return '((%s)%s)[0]' % (pt, root_c)
+
+def leaves_in_range(info, n):
+    """leaves of the root object inside [off, off+n); None if a leaf is only partly covered or the range leaves the object"""
+    root_c, root_t, off = info
+    try:
+        if off < 0 or off + n > size_of(root_t): return None
+        ls = leaves_of(root_t)
+    except Exception:
+        return None
+    out = []
+    for lo, ls_, path, lt in ls:
+        if lo + ls_ <= off or lo >= off + n: continue
+        if lo < off or lo + ls_ > off + n: return None
+        out.append((lo - off, ls_, path, lt))
+    return out
+
+def typed_memset(info, n, byteval):
+    sel = leaves_in_range(info, n)
+    if sel is None or len(sel) > 8192: return None
+    lv = root_lvalue(info[0], info[1])
+    stmts = []
+    for lo, sz, path, lt in sel:
+        if isinstance(lt, TPtr):
+            if byteval != 0: return None
+            stmts.append('%s%s = (%s)0;' % (lv, path, ctype(lt)))
+        elif isinstance(lt, TInt):
+            v = 0
+            for _ in range(sz): v = (v << 8) | byteval
+            v &= (1 << lt.n) - 1
+            stmts.append('%s%s = (%s)%dULL;' % (lv, path, ctype(lt), v))
+        else:
+            if byteval != 0: return None
+            stmts.append('%s%s = 0;' % (lv, path))
+    return stmts
+
+def typed_memcpy(dinfo, sinfo, n):
+    d = leaves_in_range(dinfo, n); s_ = leaves_in_range(sinfo, n)
+    if d is None or s_ is None or len(d) != len(s_) or len(d) > 8192: return None
+    dl = root_lvalue(dinfo[0], dinfo[1]); sl = root_lvalue(sinfo[0], sinfo[1])
+    stmts = []
+    for (do, dsz, dp, dt), (so, ssz, sp, st) in zip(d, s_):
+        if do != so or dsz != ssz: return None
+        if isinstance(dt, TPtr) != isinstance(st, TPtr): return None
+        if isinstance(dt, TFloat) or isinstance(st, TFloat):
+            if not (isinstance(dt, TFloat) and isinstance(st, TFloat) and dt.k == st.k): return None
+        if isinstance(dt, TInt) and isinstance(st, TInt) and dt.n != st.n: return None
+        stmts.append(('%s%s' % (dl, dp), '%s%s' % (sl, sp), ctype(dt)))
+    # read everything first (memmove semantics for overlapping ranges are not needed for memcpy; keep order-safe anyway)
+    out = ['%s t%d_ = (%s)%s;' % (ct, k, ct, se) for k, (de, se, ct) in enumerate(stmts)]
+    out += ['%s = t%d_;' % (de, k) for k, (de, se, ct) in enumerate(stmts)]
+    return out
 
 # ---------------------------------------------------------------- module parsing
 def read_module(path):
@@ -641,6 +761,7 @@ BINOPS = {'add':'+','sub':'-','mul':'*','and':'&','or':'|','xor':'^','shl':'<<',
 ICMP = {'eq':'==','ne':'!=','ugt':'>','uge':'>=','ult':'<','ule':'<=','sgt':'>','sge':'>=','slt':'<','sle':'<='}
 
 def translate_fn(fname, rty, ptys, pnames, byval, body):
+    for k in [k for k in PTRINFO if k.startswith('v_')]: del PTRINFO[k]
     cn = global_name(fname)
     out = []
     decls = collections.OrderedDict()   # cname -> ctype decl
@@ -772,7 +893,9 @@ def translate_ins(s, bl, decls, goto, fname):
         return ['*(%s*)%s = %s;' % (ctype(v.ty), pv.c, v.c)]
     if op == 'getelementptr':
         rest = re.sub(r'^inbounds\s+', '', rest)
-        ge, gt = gep_expr(rest)
+        ge, gt, info = gep_expr(rest)
+        if info: PTRINFO[dst] = info
+        else: PTRINFO.pop(dst, None)
         return setd(TPtr(gt), '((%s)%s)' % (ctype(TPtr(gt)), ge))
     if op in BINOPS or op in ('sdiv', 'srem', 'ashr'):
         rest = re.sub(r'^((nuw|nsw|exact)\s+)+', '', rest)
@@ -806,6 +929,10 @@ def translate_ins(s, bl, decls, goto, fname):
         k = rest.rindex(' to ')
         sv, _ = parse_typed_value(rest[:k])
         dty, _ = parse_type(rest[k+4:])
+        if op == 'bitcast' and sv.c in PTRINFO: PTRINFO[dst] = PTRINFO[sv.c]
+        elif op == 'bitcast' and is_ptr(sv.ty) and isinstance(sv.ty.to, (TStruct, TArr)) and not (isinstance(sv.ty.to, TStruct) and (sv.ty.to.fields is None or sv.ty.to.opaque)):
+            PTRINFO[dst] = (sv.c, sv.ty.to, 0)
+        else: PTRINFO.pop(dst, None)
         return setd(dty, cast_expr(op, sv, dty))
     if op == 'select':
         parts = split_top(rest)
@@ -863,6 +990,12 @@ def translate_call(s, dst, decls, goto, bl):
     if name and name.startswith('@llvm.'):
         n = name[1:]
         if any(n.startswith(p) for p in INTRINSIC_IGNORE): call = None
+        elif n.startswith('llvm.memset') and const_idx(args[2]) is not None and const_idx(args[1]) is not None and args[0].c in PTRINFO \
+                and typed_memset(PTRINFO[args[0].c], const_idx(args[2]), const_idx(args[1]) & 255) is not None:
+            return ['{ %s }' % ' '.join(typed_memset(PTRINFO[args[0].c], const_idx(args[2]), const_idx(args[1]) & 255))]
+        elif n.startswith('llvm.memcpy') and const_idx(args[2]) is not None and args[0].c in PTRINFO and args[1].c in PTRINFO \
+                and typed_memcpy(PTRINFO[args[0].c], PTRINFO[args[1].c], const_idx(args[2])) is not None:
+            return ['{ %s }' % ' '.join(typed_memcpy(PTRINFO[args[0].c], PTRINFO[args[1].c], const_idx(args[2])))]
         elif (n.startswith('llvm.memcpy') or n.startswith('llvm.memmove')) and re.fullmatch(r'\(\(uint64_t\)(\d+)ULL\)', args[2].c) and int(re.fullmatch(r'\(\(uint64_t\)(\d+)ULL\)', args[2].c).group(1)) <= 128:
             nbytes = int(re.fullmatch(r'\(\(uint64_t\)(\d+)ULL\)', args[2].c).group(1))
             chunks = []; off = 0
